@@ -27,6 +27,14 @@ pub fn gen_wf(r: &mut Rng) -> (Vec<String>, Doc) {
             }
         }
     }
+    // serial numbers that start again at 1 in every chain: an ANISOU record then belongs to the atom of that number
+    // in the chain read last
+    if r.chance(1, 8) {
+        for m in d.models.iter_mut() {
+            let (mut last, mut k) = (None, 0usize);
+            for a in m.1.iter_mut() { if last != Some(a.chain) { last = Some(a.chain); k = 0; } k += 1; a.serial = k; }
+        }
+    }
     // lower-case residue names / insertion codes in a few places (consistently per residue)
     if r.chance(1, 4) {
         for m in d.models.iter_mut() { for a in m.1.iter_mut() { if a.resseq % 3 == 0 { a.resname = a.resname.to_lowercase(); } } }
